@@ -195,6 +195,22 @@ where
             let param = ValidationErrorKind::IndexMagicByte;
             return Err(Error::validation(param, "Index magic byte is not valid").into());
         }
+        // The file ends with the array of record headers: a shorter (truncated) or longer file
+        // can't be searched correctly
+        let records_size = (self.header.records_count as u64).checked_mul(self.header.record_header_size as u64);
+        let expected_size = records_size.and_then(|size| self.metadata.leaves_offset.checked_add(size));
+        if expected_size != Some(self.file.size()) {
+            let param = ValidationErrorKind::IndexNotWritten;
+            return Err(Error::validation(
+                param,
+                format!(
+                    "Index file size is {}, but its header describes {:?} bytes",
+                    self.file.size(),
+                    expected_size
+                ),
+            )
+            .into());
+        }
         Ok(())
     }
 
